@@ -1,6 +1,7 @@
 import Driver.Util
 import DiskfsModel.Model.Ext4.ExtTree
 import DiskfsModel.Model.Ext4.Alloc
+import DiskfsModel.Model.Ext4.ExtTreeInv
 /-!
   Driver ops of the extent-tree mirror (Model/Ext4/ExtTree.lean), linked into vd-ext4ops.
 
@@ -165,6 +166,17 @@ def flatOp (args : List String) : String :=
     s!"ext={joinOr ((flatten t).map fun e => s!"{e.fileBlock}:{e.start}:{e.count}")}\tnodes={joinOr ((treeBlocks t).map toString)}"
   | _ => "bad-tree"
 
+def b01 (b : Bool) : String := if b then "1" else "0"
+
+/-- ext4tree.inv: the invariant the history theorems assume and preserve (`TreeInv`, decided by `treeInvB`:
+    `exttree_inv_decided`), component by component, on a tree read from the device -/
+def invOp (args : List String) : String :=
+  match parseTree ((arg args "tree").getD "-") with
+  | some (some t) =>
+    let bs := argNatD args "bs" 1024
+    s!"root={b01 (goodRootB bs t)}\tsorted={b01 (sortedB t)}\tnodup={b01 (nodupB t)}\tinv={b01 (treeInvB bs t)}"
+  | _ => "bad-tree"
+
 def dispatch (op : String) (args : List String) : Option String :=
   match op with
   | "ext4tree.extend" => some (extendOp args)
@@ -172,6 +184,7 @@ def dispatch (op : String) (args : List String) : Option String :=
   | "ext4tree.enc" => some (encOp args)
   | "ext4tree.parse" => some (parseOp args)
   | "ext4tree.flat" => some (flatOp args)
+  | "ext4tree.inv" => some (invOp args)
   | _ => none
 
 end Driver.Ext4Tree
